@@ -1,23 +1,55 @@
 /-
   Proofs/ResPoolLemmas.lean — the resurrector/pool/transport chain: what every schedule of each
-  operation does to each quiescent state (by exhaustive exploration, checked by the kernel), and
-  the coupling of the model with the specification automaton.
+  operation does to each quiescent state, for every pair of watermarks (by exhaustive exploration
+  of the nine clamped pairs, checked by the kernel, and `explore_sound`), and the coupling of the
+  model with the specification automaton.
 -/
 import ScalesModel.Proofs.ResChainLemmas
 import ScalesModel.Proofs.ResBackoff
 namespace Scales.Pool
 open Scales.Chain
-open Scales.Res (Par Cfg nextWait cfgWF)
+open Scales.Res (Par nextWait)
 
-/-- a property of all explored final states holds for the result of every schedule -/
-theorem drain_all (c0 : C) (P : C → Bool)
-    (h : (explore fuel c0).map (fun l => l.all P) = some true) (sched : List Nat) :
-    P (drain c0 sched) = true := by
-  cases he : explore fuel c0 with
-  | none => simp [he] at h
+/-- the clamped watermark pairs with `hi ≥ 1` -/
+def allWM : List WM := [⟨0, 1⟩, ⟨0, 2⟩, ⟨0, 3⟩, ⟨1, 1⟩, ⟨1, 2⟩, ⟨1, 3⟩, ⟨2, 1⟩, ⟨2, 2⟩, ⟨2, 3⟩]
+
+theorem clamp_mem (w : WM) (h : 1 ≤ w.hi) : clampWM w ∈ allWM := by
+  have h1 : min w.lo 2 = 0 ∨ min w.lo 2 = 1 ∨ min w.lo 2 = 2 := by omega
+  have h2 : min w.hi 3 = 1 ∨ min w.hi 3 = 2 ∨ min w.hi 3 = 3 := by omega
+  unfold clampWM allWM
+  rcases h1 with h1 | h1 | h1 <;> rcases h2 with h2 | h2 | h2 <;> rw [h1, h2] <;> simp
+
+/-- does the pool keep an idle connection (`min_watermark ≥ 1`) -/
+def keep (w : WM) : Bool := decide (1 ≤ w.lo)
+
+@[simp] theorem keep_clamp (w : WM) : keep (clampWM w) = keep w := by
+  have : (1 ≤ min w.lo 2) ↔ (1 ≤ w.lo) := by omega
+  simp [keep, clampWM, this]
+
+@[simp] theorem canon_clamp (w : WM) (m : Mode) (r : Bool) : canon (clampWM w) m r = canon w m r := by
+  have : (1 ≤ (clampWM w).lo) ↔ (1 ≤ w.lo) := by simp only [clampWM]; omega
+  cases m <;> simp only [canon, this]
+
+@[simp] theorem classify_clamp (w : WM) (c : C) : classify (clampWM w) c = classify w c := by
+  have h1 : (1 ≤ (clampWM w).lo) ↔ (1 ≤ w.lo) := by simp only [clampWM]; omega
+  have h2 : ((clampWM w).lo = 0) ↔ (w.lo = 0) := by simp only [clampWM]; omega
+  simp only [classify, h1, h2]
+
+/-- a property of all final states explored for the nine clamped pairs holds for the result of
+    every schedule under every pair of watermarks with `hi ≥ 1` -/
+theorem drain_all (w : WM) (hw : 1 ≤ w.hi) (mk : WM → C) (P : WM → C → Bool)
+    (hmk : mk (clampWM w) = mk w) (hP : ∀ c, P (clampWM w) c = P w c)
+    (h : allWM.all (fun v => decide ((explore v fuel (mk v)).map (fun l => l.all (P v)) = some true)) = true)
+    (sched : List Nat) : P w (drain w (mk w) sched) = true := by
+  have hv := List.all_eq_true.mp h _ (clamp_mem w hw)
+  simp only [decide_eq_true_eq] at hv
+  cases he : explore (clampWM w) fuel (mk (clampWM w)) with
+  | none => simp [he] at hv
   | some fs =>
-    simp only [he, Option.map_some, Option.some.injEq] at h
-    exact List.all_eq_true.mp h _ (drain_mem c0 fs he sched)
+    simp only [he, Option.map_some, Option.some.injEq] at hv
+    rw [hmk] at he
+    have := List.all_eq_true.mp hv _ (drain_mem w (mk w) fs he sched)
+    rwa [hP] at this
 
 /-- what the outside sees of a finished run -/
 structure Outcome where
@@ -27,88 +59,68 @@ structure Outcome where
   slp : Slp
   deriving DecidableEq, Repr
 
-def outcome (c : C) : Outcome := ⟨classify c, c.connects, c.resp, c.slp⟩
+def outcome (w : WM) (c : C) : Outcome := ⟨classify w c, c.connects, c.resp, c.slp⟩
 
-theorem T_open (r : Bool) (sched : List Nat) :
-    outcome (drain (opOpen (canon .idle r)) sched) =
+@[simp] theorem outcome_clamp (w : WM) (c : C) : outcome (clampWM w) c = outcome w c := by
+  simp [outcome]
+
+theorem T_open (w : WM) (hw : 1 ≤ w.hi) (r : Bool) (sched : List Nat) :
+    outcome w (drain w (opOpen (canon w .idle r)) sched) =
       ⟨some (if r then .up else .down), 1, .none, if r then .none else .fresh⟩ := by
-  cases r
-  · have := drain_all (opOpen (canon .idle false))
-      (fun c => decide (outcome c = ⟨some .down, 1, .none, .fresh⟩)) (by decide) sched
-    simpa using this
-  · have := drain_all (opOpen (canon .idle true))
-      (fun c => decide (outcome c = ⟨some .up, 1, .none, .none⟩)) (by decide) sched
-    simpa using this
+  have := drain_all w hw (fun v => opOpen (canon v .idle r))
+    (fun v c => decide (outcome v c = ⟨some (if r then .up else .down), 1, .none, if r then .none else .fresh⟩))
+    (by simp) (by intro c; simp) (by cases r <;> decide) sched
+  simpa using this
 
-theorem T_req_up (r eof : Bool) (sched : List Nat) :
-    outcome (drain (opReq (canon .up r) eof) sched) =
-      ⟨some (if eof then .down else .up), 0, if eof then .err else .ok, if eof then .fresh else .none⟩ := by
-  cases r <;> cases eof
-  · have := drain_all (opReq (canon .up false) false)
-      (fun c => decide (outcome c = ⟨some .up, 0, .ok, .none⟩)) (by decide) sched
-    simpa using this
-  · have := drain_all (opReq (canon .up false) true)
-      (fun c => decide (outcome c = ⟨some .down, 0, .err, .fresh⟩)) (by decide) sched
-    simpa using this
-  · have := drain_all (opReq (canon .up true) false)
-      (fun c => decide (outcome c = ⟨some .up, 0, .ok, .none⟩)) (by decide) sched
-    simpa using this
-  · have := drain_all (opReq (canon .up true) true)
-      (fun c => decide (outcome c = ⟨some .down, 0, .err, .fresh⟩)) (by decide) sched
-    simpa using this
+/-- did the request meet a connection failure: the peer closed the connection instead of
+    answering, or (no kept connection) the connect the request made itself was refused -/
+def reqFails (w : WM) (r eof : Bool) : Bool := eof || (!keep w && !r)
 
-theorem T_req_down (r eof : Bool) (sched : List Nat) :
-    outcome (drain (opReq (canon .down r) eof) sched) = ⟨some .down, 0, .ff, .none⟩ := by
-  cases r <;> cases eof
-  · have := drain_all (opReq (canon .down false) false)
-      (fun c => decide (outcome c = ⟨some .down, 0, .ff, .none⟩)) (by decide) sched
-    simpa using this
-  · have := drain_all (opReq (canon .down false) true)
-      (fun c => decide (outcome c = ⟨some .down, 0, .ff, .none⟩)) (by decide) sched
-    simpa using this
-  · have := drain_all (opReq (canon .down true) false)
-      (fun c => decide (outcome c = ⟨some .down, 0, .ff, .none⟩)) (by decide) sched
-    simpa using this
-  · have := drain_all (opReq (canon .down true) true)
-      (fun c => decide (outcome c = ⟨some .down, 0, .ff, .none⟩)) (by decide) sched
-    simpa using this
+theorem T_req_up (w : WM) (hw : 1 ≤ w.hi) (r eof : Bool) (sched : List Nat) :
+    outcome w (drain w (opReq (canon w .up r) eof) sched) =
+      ⟨some (if reqFails w r eof then .down else .up), if keep w then 0 else 1,
+       if reqFails w r eof then .err else .ok, if reqFails w r eof then .fresh else .none⟩ := by
+  have := drain_all w hw (fun v => opReq (canon v .up r) eof)
+    (fun v c => decide (outcome v c =
+      ⟨some (if reqFails v r eof then .down else .up), if keep v then 0 else 1,
+       if reqFails v r eof then .err else .ok, if reqFails v r eof then .fresh else .none⟩))
+    (by simp) (by intro c; simp [reqFails]) (by cases r <;> cases eof <;> decide) sched
+  simpa using this
 
-theorem T_wake (r : Bool) (sched : List Nat) :
-    outcome (drain (opWake (canon .down r)) sched) =
+theorem T_req_down (w : WM) (hw : 1 ≤ w.hi) (r eof : Bool) (sched : List Nat) :
+    outcome w (drain w (opReq (canon w .down r) eof) sched) = ⟨some .down, 0, .ff, .none⟩ := by
+  have := drain_all w hw (fun v => opReq (canon v .down r) eof)
+    (fun v c => decide (outcome v c = ⟨some .down, 0, .ff, .none⟩))
+    (by simp) (by intro c; simp) (by cases r <;> cases eof <;> decide) sched
+  simpa using this
+
+theorem T_wake (w : WM) (hw : 1 ≤ w.hi) (r : Bool) (sched : List Nat) :
+    outcome w (drain w (opWake (canon w .down r)) sched) =
       ⟨some (if r then .up else .down), 1, .none, if r then .none else .backoff⟩ := by
-  cases r
-  · have := drain_all (opWake (canon .down false))
-      (fun c => decide (outcome c = ⟨some .down, 1, .none, .backoff⟩)) (by decide) sched
-    simpa using this
-  · have := drain_all (opWake (canon .down true))
-      (fun c => decide (outcome c = ⟨some .up, 1, .none, .none⟩)) (by decide) sched
-    simpa using this
+  have := drain_all w hw (fun v => opWake (canon v .down r))
+    (fun v c => decide (outcome v c = ⟨some (if r then .up else .down), 1, .none, if r then .none else .backoff⟩))
+    (by simp) (by intro c; simp) (by cases r <;> decide) sched
+  simpa using this
 
-theorem T_close_up (r : Bool) (sched : List Nat) :
-    outcome (drain (opClose (canon .up r)) sched) = ⟨some .shutU, 0, .none, .none⟩ := by
-  cases r
-  · have := drain_all (opClose (canon .up false))
-      (fun c => decide (outcome c = ⟨some .shutU, 0, .none, .none⟩)) (by decide) sched
-    simpa using this
-  · have := drain_all (opClose (canon .up true))
-      (fun c => decide (outcome c = ⟨some .shutU, 0, .none, .none⟩)) (by decide) sched
-    simpa using this
+theorem T_close_up (w : WM) (hw : 1 ≤ w.hi) (r : Bool) (sched : List Nat) :
+    outcome w (drain w (opClose (canon w .up r)) sched) = ⟨some .shutU, 0, .none, .none⟩ := by
+  have := drain_all w hw (fun v => opClose (canon v .up r))
+    (fun v c => decide (outcome v c = ⟨some .shutU, 0, .none, .none⟩))
+    (by simp) (by intro c; simp) (by cases r <;> decide) sched
+  simpa using this
 
-theorem T_close_down (r : Bool) (sched : List Nat) :
-    outcome (drain (opClose (canon .down r)) sched) = ⟨some .shutD, 0, .none, .none⟩ := by
-  cases r
-  · have := drain_all (opClose (canon .down false))
-      (fun c => decide (outcome c = ⟨some .shutD, 0, .none, .none⟩)) (by decide) sched
-    simpa using this
-  · have := drain_all (opClose (canon .down true))
-      (fun c => decide (outcome c = ⟨some .shutD, 0, .none, .none⟩)) (by decide) sched
-    simpa using this
+theorem T_close_down (w : WM) (hw : 1 ≤ w.hi) (r : Bool) (sched : List Nat) :
+    outcome w (drain w (opClose (canon w .down r)) sched) = ⟨some .shutD, 0, .none, .none⟩ := by
+  have := drain_all w hw (fun v => opClose (canon v .down r))
+    (fun v c => decide (outcome v c = ⟨some .shutD, 0, .none, .none⟩))
+    (by simp) (by intro c; simp) (by cases r <;> decide) sched
+  simpa using this
 
 end Scales.Pool
 
 namespace Scales.Pool
 open Scales.Chain
-open Scales.Res (Par Cfg nextWait cfgWF)
+open Scales.Res (Par nextWait)
 
 /-- coupling of the model state with the specification automaton, at quiescence -/
 structure Inv (p : Par) (s : St) (a : PS) (opened closed : Bool) : Prop where
@@ -119,57 +131,55 @@ structure Inv (p : Par) (s : St) (a : PS) (opened closed : Bool) : Prop where
   hlive : opened = true → closed = false →
     (s.mode = some .up ∧ a.established = true ∧ a.connDown = false) ∨
     (s.mode = some .down ∧ a.connDown = true ∧ a.established = false ∧
-      s.wakeAt = a.lastEnd + s.wait ∧ s.wait ≤ p.maxW ∧ s.now < s.wakeAt ∧ 0 < s.wait ∧
+      s.wakeAt = a.lastEnd + s.wait ∧ s.wait ≤ p.maxW ∧ s.now < s.wakeAt ∧ 0 < s.wait ∧ a.lastEnd ≤ s.now ∧
       ∀ d, a.lastDelay = some d → d ≤ s.wait ∧ (d < s.wait ∨ s.wait = p.maxW))
   hshut : closed = true → s.mode = some .shutU ∨ s.mode = some .shutD
 
 /-- everything the coupling needs to know about a finished run -/
-theorem settle_spec (p : Par) (s : St) (c : C) (dp dt : Nat) (oc : Outcome) (h : outcome c = oc) :
-    (settle p s c dp dt).mode = oc.mode ∧ (settle p s c dp dt).now = s.now + dt ∧
-    (settle p s c dp dt).reach = s.reach ∧
-    (obsOf (settle p s c dp dt)).connects = oc.connects ∧ (obsOf (settle p s c dp dt)).resp = oc.resp ∧
-    (obsOf (settle p s c dp dt)).quiet = oc.mode.isSome ∧
-    (settle p s c dp dt).wait =
+theorem settle_spec (p : Par) (w : WM) (s : St) (c : C) (dp dt : Nat) (oc : Outcome) (h : outcome w c = oc) :
+    (settle p w s c dp dt).mode = oc.mode ∧ (settle p w s c dp dt).now = s.now + dt ∧
+    (settle p w s c dp dt).reach = s.reach ∧
+    (obsOf (settle p w s c dp dt)).connects = oc.connects ∧ (obsOf (settle p w s c dp dt)).resp = oc.resp ∧
+    (obsOf (settle p w s c dp dt)).quiet = oc.mode.isSome ∧
+    (settle p w s c dp dt).wait =
       (match oc.slp with | .fresh => p.init | .backoff => nextWait p s.wait | .none => s.wait) ∧
-    (settle p s c dp dt).wakeAt =
+    (settle p w s c dp dt).wakeAt =
       (match oc.slp with
        | .fresh => s.now + dt + p.init | .backoff => s.now + dt + nextWait p s.wait | .none => s.wakeAt) := by
   subst h
   unfold settle obsOf outcome
   cases c.slp <;> simp
 
-
-
-theorem step_opn (cfg : Cfg) (hc : cfgWF cfg = true) (s : St) (a : PS) (o c : Bool) (idx : Nat)
-    (sched : List Nat) (hI : Inv cfg.par s a o c) (hop : opOk s o c (.opn sched) = true) :
-    ∃ a', specStep cfg a idx (.opn sched) (obsOf (stepSt cfg.par s (.opn sched))) = (.ok, a') ∧
-      Inv cfg.par (stepSt cfg.par s (.opn sched)) a' true c := by
+theorem step_opn (cfg : Cfg) (hc : Res.cfgWF cfg.r = true) (hw : 1 ≤ cfg.w.hi) (s : St) (a : PS) (o c : Bool)
+    (idx : Nat) (sched : List Nat) (hI : Inv cfg.r.par s a o c) (hop : opOk s o c (.opn sched) = true) :
+    ∃ a', specStep cfg.r a idx (.opn sched) (obsOf (stepSt cfg.r.par cfg.w s (.opn sched))) = (.ok, a') ∧
+      Inv cfg.r.par (stepSt cfg.r.par cfg.w s (.opn sched)) a' true c := by
   simp only [opOk, Bool.and_eq_true, Bool.not_eq_true'] at hop
   obtain ⟨ho, hcl⟩ := hop
   subst ho; subst hcl
   obtain ⟨hm, hcd, hes, _⟩ := hI.hidle rfl
-  have hstep : stepSt cfg.par s (.opn sched) =
-      settle cfg.par s (drain (opOpen (canon .idle s.reach)) sched) 1 0 := by
+  have hstep : stepSt cfg.r.par cfg.w s (.opn sched) =
+      settle cfg.r.par cfg.w s (drain cfg.w (opOpen (canon cfg.w .idle s.reach)) sched) 1 0 := by
     simp [stepSt, hm, canon]
   have hac : a.closed = false := hI.hclosed
-  have hipos := Res.cfg_init_pos cfg hc
-  have hile := Res.cfg_init_le cfg hc
+  have hipos := Res.cfg_init_pos cfg.r hc
+  have hile := Res.cfg_init_le cfg.r hc
   have hnow := hI.hnow
   have hreach := hI.hreach rfl
   by_cases hr : s.reach = true
   · rw [hr] at hstep
-    obtain ⟨g1, g2, g3, g4, g5, g6, g7, g8⟩ := settle_spec cfg.par s _ 1 0 _ (T_open true sched)
+    obtain ⟨g1, g2, g3, g4, g5, g6, g7, g8⟩ := settle_spec cfg.r.par cfg.w s _ 1 0 _ (T_open cfg.w hw true sched)
     rw [← hstep] at g1 g2 g3 g4 g5 g6 g7 g8
-    generalize stepSt cfg.par s (.opn sched) = s' at *
+    generalize stepSt cfg.r.par cfg.w s (.opn sched) = s' at *
     refine ⟨{ a with established := true, connDown := false }, ?_, ?_⟩
     · simp [specStep, g4, g6, hac, hreach, hr]
     · refine ⟨by simp [g2, hnow], by simp [g3, hreach], by simp [hac], by simp, ?_, by simp⟩
       intro _ _; left; simp [g1]
   · have hr' : s.reach = false := by simpa using hr
     rw [hr'] at hstep
-    obtain ⟨g1, g2, g3, g4, g5, g6, g7, g8⟩ := settle_spec cfg.par s _ 1 0 _ (T_open false sched)
+    obtain ⟨g1, g2, g3, g4, g5, g6, g7, g8⟩ := settle_spec cfg.r.par cfg.w s _ 1 0 _ (T_open cfg.w hw false sched)
     rw [← hstep] at g1 g2 g3 g4 g5 g6 g7 g8
-    generalize stepSt cfg.par s (.opn sched) = s' at *
+    generalize stepSt cfg.r.par cfg.w s (.opn sched) = s' at *
     refine ⟨{ a with connDown := true, established := false, lastEnd := a.now, lastDelay := none }, ?_, ?_⟩
     · simp [specStep, g4, g6, hac, hreach, hr']
     · refine ⟨by simp [g2, hnow], by simp [g3, hreach], by simp [hac], by simp, ?_, by simp⟩
@@ -178,95 +188,120 @@ theorem step_opn (cfg : Cfg) (hc : cfgWF cfg = true) (s : St) (a : PS) (o c : Bo
       simp [g1, g7, g8, g2, hnow]
       omega
 
-
-theorem step_req (cfg : Cfg) (hc : cfgWF cfg = true) (s : St) (a : PS) (o c : Bool) (idx : Nat)
-    (eof : Bool) (sched : List Nat) (hI : Inv cfg.par s a o c) (hop : opOk s o c (.req eof sched) = true) :
-    ∃ a', specStep cfg a idx (.req eof sched) (obsOf (stepSt cfg.par s (.req eof sched))) = (.ok, a') ∧
-      Inv cfg.par (stepSt cfg.par s (.req eof sched)) a' o c := by
+theorem step_req (cfg : Cfg) (hc : Res.cfgWF cfg.r = true) (hw : 1 ≤ cfg.w.hi) (s : St) (a : PS) (o c : Bool)
+    (idx : Nat) (eof : Bool) (sched : List Nat) (hI : Inv cfg.r.par s a o c)
+    (hop : opOk s o c (.req eof sched) = true) :
+    ∃ a', specStep cfg.r a idx (.req eof sched) (obsOf (stepSt cfg.r.par cfg.w s (.req eof sched))) = (.ok, a') ∧
+      Inv cfg.r.par (stepSt cfg.r.par cfg.w s (.req eof sched)) a' o c := by
   simp only [opOk, Bool.and_eq_true, Bool.not_eq_true'] at hop
   obtain ⟨ho, hcl⟩ := hop
   subst ho; subst hcl
   have hac : a.closed = false := hI.hclosed
-  have hipos := Res.cfg_init_pos cfg hc
-  have hile := Res.cfg_init_le cfg hc
+  have hipos := Res.cfg_init_pos cfg.r hc
+  have hile := Res.cfg_init_le cfg.r hc
   have hnow := hI.hnow
   have hreach := hI.hreach rfl
-  rcases hI.hlive rfl rfl with ⟨hm, hes, hcd⟩ | ⟨hm, hcd, hes, hwk, hwm, hlt, hwpos, hld⟩
+  rcases hI.hlive rfl rfl with ⟨hm, hes, hcd⟩ | ⟨hm, hcd, hes, hwk, hwm, hlt, hwpos, hle, hld⟩
   · -- up
-    have hstep : stepSt cfg.par s (.req eof sched) =
-        settle cfg.par s (drain (opReq (canon .up s.reach) eof) sched) 0 0 := by
+    have hstep : stepSt cfg.r.par cfg.w s (.req eof sched) =
+        settle cfg.r.par cfg.w s (drain cfg.w (opReq (canon cfg.w .up s.reach) eof) sched) 0 0 := by
       simp [stepSt, hm]
-    obtain ⟨g1, g2, g3, g4, g5, g6, g7, g8⟩ := settle_spec cfg.par s _ 0 0 _ (T_req_up s.reach eof sched)
+    obtain ⟨g1, g2, g3, g4, g5, g6, g7, g8⟩ :=
+      settle_spec cfg.r.par cfg.w s _ 0 0 _ (T_req_up cfg.w hw s.reach eof sched)
     rw [← hstep] at g1 g2 g3 g4 g5 g6 g7 g8
-    generalize stepSt cfg.par s (.req eof sched) = s' at *
-    cases eof with
-    | false =>
-      refine ⟨a, ?_, ?_⟩
-      · simp [specStep, g4, g5, g6, hac, hcd, hes]
-      · refine ⟨by simp [g2, hnow], by simp [g3, hreach], hac, by simp, ?_, by simp⟩
-        intro _ _; left; simp [g1, hes, hcd]
+    generalize stepSt cfg.r.par cfg.w s (.req eof sched) = s' at *
+    -- the three ways a request on an open channel goes
+    have hdown : reqFails cfg.w s.reach eof = true →
+        (eof = true ∨ (0 < (obsOf s').connects ∧ a.reach = false)) := by
+      intro hf
+      simp only [reqFails, Bool.or_eq_true, Bool.and_eq_true, Bool.not_eq_true'] at hf
+      rcases hf with hf | ⟨hk, hr⟩
+      · left; exact hf
+      · right; simp [g4, hk, hreach, hr]
+    cases hf : reqFails cfg.w s.reach eof with
     | true =>
+      simp only [hf, if_true] at g1 g5 g7 g8
       refine ⟨{ a with connDown := true, established := false, lastEnd := a.now, lastDelay := none }, ?_, ?_⟩
-      · simp [specStep, g4, g5, g6, hac, hcd, hes]
+      · rcases hdown hf with he | ⟨hcn, hr⟩
+        · by_cases hx : 0 < (obsOf s').connects ∧ a.reach = false
+          · simp [specStep, g6, g1, hac, hcd, hes, hx]
+          · simp [specStep, g6, g1, hac, hcd, hes, hx, he]
+        · simp [specStep, g6, g1, hac, hcd, hes, hcn, hr]
       · refine ⟨by simp [g2, hnow], by simp [g3, hreach], by simp [hac], by simp, ?_, by simp⟩
         intro _ _; right
         simp at g7 g8
         simp [g1, g7, g8, g2, hnow]
         omega
+    | false =>
+      simp only [hf] at g1 g5 g7 g8
+      have hne : eof = false ∧ (keep cfg.w = true ∨ s.reach = true) := by
+        simp only [reqFails, Bool.or_eq_false_iff, Bool.and_eq_false_iff, Bool.not_eq_false'] at hf
+        exact hf
+      have hx : ¬ (0 < (obsOf s').connects ∧ a.reach = false) := by
+        rcases hne.2 with hk | hr
+        · simp [g4, hk]
+        · simp [hreach, hr]
+      refine ⟨a, ?_, ?_⟩
+      · simp [specStep, g5, g6, g1, hac, hcd, hes, hx, hne.1]
+      · refine ⟨by simp [g2, hnow], by simp [g3, hreach], hac, by simp, ?_, by simp⟩
+        intro _ _; left; simp [g1, hes, hcd]
   · -- down
-    have hstep : stepSt cfg.par s (.req eof sched) =
-        settle cfg.par s (drain (opReq (canon .down s.reach) eof) sched) 0 0 := by
+    have hstep : stepSt cfg.r.par cfg.w s (.req eof sched) =
+        settle cfg.r.par cfg.w s (drain cfg.w (opReq (canon cfg.w .down s.reach) eof) sched) 0 0 := by
       simp [stepSt, hm]
-    obtain ⟨g1, g2, g3, g4, g5, g6, g7, g8⟩ := settle_spec cfg.par s _ 0 0 _ (T_req_down s.reach eof sched)
+    obtain ⟨g1, g2, g3, g4, g5, g6, g7, g8⟩ :=
+      settle_spec cfg.r.par cfg.w s _ 0 0 _ (T_req_down cfg.w hw s.reach eof sched)
     rw [← hstep] at g1 g2 g3 g4 g5 g6 g7 g8
-    generalize stepSt cfg.par s (.req eof sched) = s' at *
+    generalize stepSt cfg.r.par cfg.w s (.req eof sched) = s' at *
     refine ⟨a, ?_, ?_⟩
-    · have : ¬ (max a.reachSince a.lastEnd + cfg.maxW ≤ a.now) := by
-        have : cfg.par.maxW = cfg.maxW := rfl
+    · have : ¬ (max a.reachSince a.lastEnd + cfg.r.maxW ≤ a.now) := by
+        have : cfg.r.par.maxW = cfg.r.maxW := rfl
         omega
       simp [specStep, g4, g5, g6, hac, hcd, this]
     · refine ⟨by simp [g2, hnow], by simp [g3, hreach], hac, by simp, ?_, by simp⟩
       intro _ _; right
       simp at g7 g8
       simp [g1, g7, g8, g2, hcd, hes]
-      exact ⟨hwk, hwm, hlt, hwpos, hld⟩
+      exact ⟨hwk, hwm, hlt, hwpos, hle, hld⟩
 
-theorem step_close (cfg : Cfg) (s : St) (a : PS) (o c : Bool) (idx : Nat)
-    (sched : List Nat) (hI : Inv cfg.par s a o c) (hop : opOk s o c (.close sched) = true) :
-    ∃ a', specStep cfg a idx (.close sched) (obsOf (stepSt cfg.par s (.close sched))) = (.ok, a') ∧
-      Inv cfg.par (stepSt cfg.par s (.close sched)) a' o true := by
+theorem step_close (cfg : Cfg) (hw : 1 ≤ cfg.w.hi) (s : St) (a : PS) (o c : Bool) (idx : Nat)
+    (sched : List Nat) (hI : Inv cfg.r.par s a o c) (hop : opOk s o c (.close sched) = true) :
+    ∃ a', specStep cfg.r a idx (.close sched) (obsOf (stepSt cfg.r.par cfg.w s (.close sched))) = (.ok, a') ∧
+      Inv cfg.r.par (stepSt cfg.r.par cfg.w s (.close sched)) a' o true := by
   simp only [opOk, Bool.and_eq_true, Bool.not_eq_true'] at hop
   obtain ⟨ho, hcl⟩ := hop
   subst ho; subst hcl
   have hac : a.closed = false := hI.hclosed
   have hnow := hI.hnow
   have hreach := hI.hreach rfl
-  rcases hI.hlive rfl rfl with ⟨hm, hes, hcd⟩ | ⟨hm, hcd, hes, hwk, hwm, hlt, hwpos, hld⟩
-  · have hstep : stepSt cfg.par s (.close sched) =
-        settle cfg.par s (drain (opClose (canon .up s.reach)) sched) 0 0 := by
+  rcases hI.hlive rfl rfl with ⟨hm, hes, hcd⟩ | ⟨hm, hcd, hes, hwk, hwm, hlt, hwpos, hle, hld⟩
+  · have hstep : stepSt cfg.r.par cfg.w s (.close sched) =
+        settle cfg.r.par cfg.w s (drain cfg.w (opClose (canon cfg.w .up s.reach)) sched) 0 0 := by
       simp [stepSt, hm]
-    obtain ⟨g1, g2, g3, g4, g5, g6, g7, g8⟩ := settle_spec cfg.par s _ 0 0 _ (T_close_up s.reach sched)
+    obtain ⟨g1, g2, g3, g4, g5, g6, g7, g8⟩ :=
+      settle_spec cfg.r.par cfg.w s _ 0 0 _ (T_close_up cfg.w hw s.reach sched)
     rw [← hstep] at g1 g2 g3 g4 g5 g6 g7 g8
-    generalize stepSt cfg.par s (.close sched) = s' at *
+    generalize stepSt cfg.r.par cfg.w s (.close sched) = s' at *
     refine ⟨{ a with closed := true }, ?_, ?_⟩
     · simp [specStep, g4, g6, hac]
     · exact ⟨by simp [g2, hnow], by simp [g3, hreach], by simp, by simp, by simp, by simp [g1]⟩
-  · have hstep : stepSt cfg.par s (.close sched) =
-        settle cfg.par s (drain (opClose (canon .down s.reach)) sched) 0 0 := by
+  · have hstep : stepSt cfg.r.par cfg.w s (.close sched) =
+        settle cfg.r.par cfg.w s (drain cfg.w (opClose (canon cfg.w .down s.reach)) sched) 0 0 := by
       simp [stepSt, hm]
-    obtain ⟨g1, g2, g3, g4, g5, g6, g7, g8⟩ := settle_spec cfg.par s _ 0 0 _ (T_close_down s.reach sched)
+    obtain ⟨g1, g2, g3, g4, g5, g6, g7, g8⟩ :=
+      settle_spec cfg.r.par cfg.w s _ 0 0 _ (T_close_down cfg.w hw s.reach sched)
     rw [← hstep] at g1 g2 g3 g4 g5 g6 g7 g8
-    generalize stepSt cfg.par s (.close sched) = s' at *
+    generalize stepSt cfg.r.par cfg.w s (.close sched) = s' at *
     refine ⟨{ a with closed := true }, ?_, ?_⟩
     · simp [specStep, g4, g6, hac]
     · exact ⟨by simp [g2, hnow], by simp [g3, hreach], by simp, by simp, by simp, by simp [g1]⟩
 
 theorem step_reach (cfg : Cfg) (s : St) (a : PS) (o c : Bool) (idx : Nat)
-    (up : Bool) (hI : Inv cfg.par s a o c) :
-    ∃ a', specStep cfg a idx (.reach up) (obsOf (stepSt cfg.par s (.reach up))) = (.ok, a') ∧
-      Inv cfg.par (stepSt cfg.par s (.reach up)) a' o c := by
-  have hq : (obsOf (stepSt cfg.par s (.reach up))).quiet = s.mode.isSome := by simp [stepSt, obsOf]
-  have hcn : (obsOf (stepSt cfg.par s (.reach up))).connects = 0 := by simp [stepSt, obsOf, begin]
+    (up : Bool) (hI : Inv cfg.r.par s a o c) :
+    ∃ a', specStep cfg.r a idx (.reach up) (obsOf (stepSt cfg.r.par cfg.w s (.reach up))) = (.ok, a') ∧
+      Inv cfg.r.par (stepSt cfg.r.par cfg.w s (.reach up)) a' o c := by
+  have hq : (obsOf (stepSt cfg.r.par cfg.w s (.reach up))).quiet = s.mode.isSome := by simp [stepSt, obsOf]
+  have hcn : (obsOf (stepSt cfg.r.par cfg.w s (.reach up))).connects = 0 := by simp [stepSt, obsOf, begin]
   have hmode : s.mode.isSome = true := by
     cases o with
     | false => simp [(hI.hidle rfl).1]
@@ -286,23 +321,23 @@ theorem step_reach (cfg : Cfg) (s : St) (a : PS) (o c : Bool) (idx : Nat)
     exact ⟨by simp [stepSt, hI.hnow], by simp [stepSt], by simp [hcl],
       by simpa [stepSt] using hI.hidle, by simpa [stepSt] using hI.hlive, by simpa [stepSt] using hI.hshut⟩
 
-
-theorem step_tick (cfg : Cfg) (hc : cfgWF cfg = true) (s : St) (a : PS) (o c : Bool) (idx : Nat)
-    (d : Nat) (sched : List Nat) (hI : Inv cfg.par s a o c) (hop : opOk s o c (.tick d sched) = true) :
-    ∃ a', specStep cfg a idx (.tick d sched) (obsOf (stepSt cfg.par s (.tick d sched))) = (.ok, a') ∧
-      Inv cfg.par (stepSt cfg.par s (.tick d sched)) a' o c := by
+theorem step_tick (cfg : Cfg) (hc : Res.cfgWF cfg.r = true) (hw : 1 ≤ cfg.w.hi) (s : St) (a : PS) (o c : Bool)
+    (idx : Nat) (d : Nat) (sched : List Nat) (hI : Inv cfg.r.par s a o c)
+    (hop : opOk s o c (.tick d sched) = true) :
+    ∃ a', specStep cfg.r a idx (.tick d sched) (obsOf (stepSt cfg.r.par cfg.w s (.tick d sched))) = (.ok, a') ∧
+      Inv cfg.r.par (stepSt cfg.r.par cfg.w s (.tick d sched)) a' o c := by
   simp only [opOk, Bool.and_eq_true, Bool.or_eq_true, decide_eq_true_eq] at hop
   obtain ⟨hd, hwf⟩ := hop
   have hnow := hI.hnow
-  have hf := Res.cfg_grows cfg hc
+  have hf := Res.cfg_grows cfg.r hc
   -- the case without a wake
   have nowake : (s.mode.isSome = true) → (∀ m, s.mode = some m → ¬ (m = .down ∧ s.wakeAt ≤ s.now + d)) →
       (c = false → o = true → s.mode = some .down → False) →
-      ∃ a', specStep cfg a idx (.tick d sched) (obsOf (stepSt cfg.par s (.tick d sched))) = (.ok, a') ∧
-        Inv cfg.par (stepSt cfg.par s (.tick d sched)) a' o c := by
+      ∃ a', specStep cfg.r a idx (.tick d sched) (obsOf (stepSt cfg.r.par cfg.w s (.tick d sched))) = (.ok, a') ∧
+        Inv cfg.r.par (stepSt cfg.r.par cfg.w s (.tick d sched)) a' o c := by
     intro hsome hno hnd
     obtain ⟨m, hm⟩ := Option.isSome_iff_exists.mp hsome
-    have hstep : stepSt cfg.par s (.tick d sched) = { s with now := s.now + d, last := begin s.last } := by
+    have hstep : stepSt cfg.r.par cfg.w s (.tick d sched) = { s with now := s.now + d, last := begin s.last } := by
       simp [stepSt, hm, hno m hm]
     rw [hstep]
     refine ⟨{ a with now := a.now + d }, ?_, ?_⟩
@@ -326,9 +361,9 @@ theorem step_tick (cfg : Cfg) (hc : cfgWF cfg = true) (s : St) (a : PS) (o c : B
     | false =>
       have hac : a.closed = false := hI.hclosed
       have hreach := hI.hreach rfl
-      rcases hI.hlive rfl rfl with ⟨hm, hes, hcd⟩ | ⟨hm, hcd, hes, hwk, hwm, hlt, hwpos, hld⟩
+      rcases hI.hlive rfl rfl with ⟨hm, hes, hcd⟩ | ⟨hm, hcd, hes, hwk, hwm, hlt, hwpos, hle, hld⟩
       · -- up: nothing happens
-        have hstep : stepSt cfg.par s (.tick d sched) = { s with now := s.now + d, last := begin s.last } := by
+        have hstep : stepSt cfg.r.par cfg.w s (.tick d sched) = { s with now := s.now + d, last := begin s.last } := by
           simp [stepSt, hm]
         rw [hstep]
         refine ⟨{ a with now := a.now + d }, ?_, ?_⟩
@@ -336,27 +371,28 @@ theorem step_tick (cfg : Cfg) (hc : cfgWF cfg = true) (s : St) (a : PS) (o c : B
         · refine ⟨by simp [hnow], by simpa using hI.hreach, by simpa using hI.hclosed, by simp, ?_, by simp⟩
           intro _ _; left; simp [hm, hes, hcd]
       · -- down
-        have hle : s.now + d ≤ s.wakeAt := by
+        have hle' : s.now + d ≤ s.wakeAt := by
           rcases hwf with h | h
           · exact (h hm).elim
           · exact h
-        by_cases hw : s.wakeAt ≤ s.now + d
+        by_cases hwk' : s.wakeAt ≤ s.now + d
         · -- the retry greenlet wakes
           have heq : s.now + d = s.wakeAt := by omega
-          have hstep : stepSt cfg.par s (.tick d sched) =
-              settle cfg.par s (drain (opWake (canon .down s.reach)) sched) 1 d := by
-            simp [stepSt, hm, hw]
-          have hmw : cfg.par.maxW = cfg.maxW := rfl
+          have hstep : stepSt cfg.r.par cfg.w s (.tick d sched) =
+              settle cfg.r.par cfg.w s (drain cfg.w (opWake (canon cfg.w .down s.reach)) sched) 1 d := by
+            simp [stepSt, hm, hwk']
+          have hmw : cfg.r.par.maxW = cfg.r.maxW := rfl
           by_cases hr : s.reach = true
           · rw [hr] at hstep
-            obtain ⟨g1, g2, g3, g4, g5, g6, g7, g8⟩ := settle_spec cfg.par s _ 1 d _ (T_wake true sched)
+            obtain ⟨g1, g2, g3, g4, g5, g6, g7, g8⟩ :=
+              settle_spec cfg.r.par cfg.w s _ 1 d _ (T_wake cfg.w hw true sched)
             rw [← hstep] at g1 g2 g3 g4 g5 g6 g7 g8
-            generalize stepSt cfg.par s (.tick d sched) = s' at *
+            generalize stepSt cfg.r.par cfg.w s (.tick d sched) = s' at *
             refine ⟨{ a with now := a.now + d, established := true, connDown := false, lastDelay := none }, ?_, ?_⟩
-            · have h1 : ¬ (cfg.maxW < a.now + d - a.lastEnd) := by omega
+            · have h1 : ¬ (cfg.r.maxW < a.now + d - a.lastEnd) := by omega
               have h2 : (match a.lastDelay with
                   | some p => decide (a.now + d - a.lastEnd < p) ||
-                      (decide (a.now + d - a.lastEnd = p) && decide (p < cfg.maxW))
+                      (decide (a.now + d - a.lastEnd = p) && decide (p < cfg.r.maxW))
                   | none => false) = false := by
                 cases hl : a.lastDelay with
                 | none => rfl
@@ -374,14 +410,15 @@ theorem step_tick (cfg : Cfg) (hc : cfgWF cfg = true) (s : St) (a : PS) (o c : B
               intro _ _; left; simp [g1]
           · have hr' : s.reach = false := by simpa using hr
             rw [hr'] at hstep
-            obtain ⟨g1, g2, g3, g4, g5, g6, g7, g8⟩ := settle_spec cfg.par s _ 1 d _ (T_wake false sched)
+            obtain ⟨g1, g2, g3, g4, g5, g6, g7, g8⟩ :=
+              settle_spec cfg.r.par cfg.w s _ 1 d _ (T_wake cfg.w hw false sched)
             rw [← hstep] at g1 g2 g3 g4 g5 g6 g7 g8
-            generalize stepSt cfg.par s (.tick d sched) = s' at *
+            generalize stepSt cfg.r.par cfg.w s (.tick d sched) = s' at *
             refine ⟨{ a with now := a.now + d, lastEnd := a.now + d, lastDelay := some (a.now + d - a.lastEnd) }, ?_, ?_⟩
-            · have h1 : ¬ (cfg.maxW < a.now + d - a.lastEnd) := by omega
+            · have h1 : ¬ (cfg.r.maxW < a.now + d - a.lastEnd) := by omega
               have h2 : (match a.lastDelay with
                   | some p => decide (a.now + d - a.lastEnd < p) ||
-                      (decide (a.now + d - a.lastEnd = p) && decide (p < cfg.maxW))
+                      (decide (a.now + d - a.lastEnd = p) && decide (p < cfg.r.maxW))
                   | none => false) = false := by
                 cases hl : a.lastDelay with
                 | none => rfl
@@ -398,50 +435,131 @@ theorem step_tick (cfg : Cfg) (hc : cfgWF cfg = true) (s : St) (a : PS) (o c : B
             · refine ⟨by simp [g2, hnow], by simp [g3, hreach], by simp [hac], by simp, ?_, by simp⟩
               intro _ _; right
               simp at g7 g8
-              have hge := Res.le_nextWait cfg.par hf s.wait hwm
-              have hmx := Res.nextWait_le_max cfg.par s.wait
+              have hge := Res.le_nextWait cfg.r.par hf s.wait hwm
+              have hmx := Res.nextWait_le_max cfg.r.par s.wait
               simp [g1, g7, g8, g2, hnow, hcd, hes]
               refine ⟨hmx, by omega, by omega, ?_⟩
-              rcases Res.nextWait_strict cfg.par hf s.wait hwm with hs | hs
+              rcases Res.nextWait_strict cfg.r.par hf s.wait hwm with hs | hs
               · left; omega
               · right; exact hs
         · -- not yet
-          have hstep : stepSt cfg.par s (.tick d sched) = { s with now := s.now + d, last := begin s.last } := by
-            simp [stepSt, hm, hw]
+          have hstep : stepSt cfg.r.par cfg.w s (.tick d sched) = { s with now := s.now + d, last := begin s.last } := by
+            simp [stepSt, hm, hwk']
           rw [hstep]
           refine ⟨{ a with now := a.now + d }, ?_, ?_⟩
           · simp [specStep, obsOf, begin, hm, hac]
           · refine ⟨by simp [hnow], by simpa using hI.hreach, by simpa using hI.hclosed, by simp, ?_, by simp⟩
             intro _ _; right
             simp [hm, hcd, hes]
-            exact ⟨hwk, hwm, by omega, hwpos, hld⟩
+            exact ⟨hwk, hwm, by omega, hwpos, by omega, hld⟩
 
-theorem step_ok (cfg : Cfg) (hc : cfgWF cfg = true) (s : St) (a : PS) (o c : Bool) (idx : Nat) (op : Op)
-    (hI : Inv cfg.par s a o c) (hop : opOk s o c op = true) :
-    ∃ a', specStep cfg a idx op (obsOf (stepSt cfg.par s op)) = (.ok, a') ∧
-      Inv cfg.par (stepSt cfg.par s op) a' (o || isOpn op) (c || isClose op) := by
+theorem step_ok (cfg : Cfg) (hc : Res.cfgWF cfg.r = true) (hw : 1 ≤ cfg.w.hi) (s : St) (a : PS) (o c : Bool)
+    (idx : Nat) (op : Op) (hI : Inv cfg.r.par s a o c) (hop : opOk s o c op = true) :
+    ∃ a', specStep cfg.r a idx op (obsOf (stepSt cfg.r.par cfg.w s op)) = (.ok, a') ∧
+      Inv cfg.r.par (stepSt cfg.r.par cfg.w s op) a' (o || isOpn op) (c || isClose op) := by
   cases op with
-  | opn sched => simpa [isOpn, isClose] using step_opn cfg hc s a o c idx sched hI hop
-  | req eof sched => simpa [isOpn, isClose] using step_req cfg hc s a o c idx eof sched hI hop
+  | opn sched => simpa [isOpn, isClose] using step_opn cfg hc hw s a o c idx sched hI hop
+  | req eof sched => simpa [isOpn, isClose] using step_req cfg hc hw s a o c idx eof sched hI hop
   | reach up => simpa [isOpn, isClose] using step_reach cfg s a o c idx up hI
-  | tick d sched => simpa [isOpn, isClose] using step_tick cfg hc s a o c idx d sched hI hop
-  | close sched => simpa [isOpn, isClose] using step_close cfg s a o c idx sched hI hop
+  | tick d sched => simpa [isOpn, isClose] using step_tick cfg hc hw s a o c idx d sched hI hop
+  | close sched => simpa [isOpn, isClose] using step_close cfg hw s a o c idx sched hI hop
 
-theorem spec_trace (cfg : Cfg) (hc : cfgWF cfg = true) (ops : List Op) :
-    ∀ (s : St) (a : PS) (o c : Bool) (idx : Nat), Inv cfg.par s a o c →
-      wfGo cfg.par s o c ops = true → specGo cfg a idx (comp.trace cfg s ops) = .ok := by
+theorem spec_trace (cfg : Cfg) (hc : Res.cfgWF cfg.r = true) (hw : 1 ≤ cfg.w.hi) (ops : List Op) :
+    ∀ (s : St) (a : PS) (o c : Bool) (idx : Nat), Inv cfg.r.par s a o c →
+      wfGo cfg.r.par cfg.w s o c ops = true → specGo cfg.r a idx (comp.trace cfg s ops) = .ok := by
   induction ops with
   | nil => intro s a o c idx _ _; rfl
   | cons op ops ih =>
     intro s a o c idx hI hwf
     simp only [wfGo, Bool.and_eq_true] at hwf
-    obtain ⟨a', hs, hI'⟩ := step_ok cfg hc s a o c idx op hI hwf.1
+    obtain ⟨a', hs, hI'⟩ := step_ok cfg hc hw s a o c idx op hI hwf.1
     have htr : comp.trace cfg s (op :: ops) =
-        (op, obsOf (stepSt cfg.par s op)) :: comp.trace cfg (stepSt cfg.par s op) ops := by
+        (op, obsOf (stepSt cfg.r.par cfg.w s op)) :: comp.trace cfg (stepSt cfg.r.par cfg.w s op) ops := by
       simp [TComp.trace, comp, step]
     rw [htr]
     simp only [specGo, hs]
     exact ih _ a' _ _ _ hI' hwf.2
+
+/-- the model's state after an operation list -/
+def runOps (cfg : Cfg) (s : St) (ops : List Op) : St := ops.foldl (stepSt cfg.r.par cfg.w) s
+
+/-- the coupling holds in every reachable state -/
+theorem inv_run (cfg : Cfg) (hc : Res.cfgWF cfg.r = true) (hw : 1 ≤ cfg.w.hi) (ops : List Op) :
+    ∀ (s : St) (a : PS) (o c : Bool), Inv cfg.r.par s a o c → wfGo cfg.r.par cfg.w s o c ops = true →
+      ∃ a' o' c', Inv cfg.r.par (runOps cfg s ops) a' o' c' := by
+  induction ops with
+  | nil => intro s a o c hI _; exact ⟨a, o, c, hI⟩
+  | cons op ops ih =>
+    intro s a o c hI hwf
+    simp only [wfGo, Bool.and_eq_true] at hwf
+    obtain ⟨a', _, hI'⟩ := step_ok cfg hc hw s a o c 0 op hI hwf.1
+    exact ih _ a' _ _ hI' hwf.2
+
+theorem classify_up (w : WM) (c : C) (h : classify w c = some .up) :
+    c.rDown = false ∧ c.rNext = true ∧ c.pSt = .opened := by
+  unfold classify at h
+  repeat' split at h
+  all_goals simp_all
+
+theorem settle_last (p : Par) (w : WM) (s : St) (c : C) (dp dt : Nat) :
+    (settle p w s c dp dt).last = c ∧ (settle p w s c dp dt).mode = classify w c ∧
+    (settle p w s c dp dt).pools = s.pools + dp := by
+  unfold settle
+  cases c.slp <;> simp
+
+/-- **recovery, whatever the pool keeps.**  In a reachable state in fail-fast mode the retry
+    greenlet's wake instant is at most one maximum interval ahead; if the endpoint accepts
+    connections then, the attempt (under every schedule) makes one connect and leaves the channel
+    Open with a next sink, and the next request (under every schedule) is answered by the peer. -/
+theorem recovers (cfg : Cfg) (_hc : Res.cfgWF cfg.r = true) (hw : 1 ≤ cfg.w.hi) (s : St) (a : PS) (o c : Bool)
+    (hI : Inv cfg.r.par s a o c) (hd : s.mode = some .down) :
+    s.now < s.wakeAt ∧ s.wakeAt ≤ s.now + cfg.r.maxW ∧
+    (s.reach = true → ∀ sched sched' : List Nat,
+      (stepSt cfg.r.par cfg.w s (.tick (s.wakeAt - s.now) sched)).mode = some .up ∧
+      (obsOf (stepSt cfg.r.par cfg.w s (.tick (s.wakeAt - s.now) sched))).connects = 1 ∧
+      (obsOf (stepSt cfg.r.par cfg.w s (.tick (s.wakeAt - s.now) sched))).down = false ∧
+      (obsOf (stepSt cfg.r.par cfg.w s (.tick (s.wakeAt - s.now) sched))).next = some s.pools ∧
+      (obsOf (stepSt cfg.r.par cfg.w s (.tick (s.wakeAt - s.now) sched))).state = .opened ∧
+      (obsOf (stepSt cfg.r.par cfg.w (stepSt cfg.r.par cfg.w s (.tick (s.wakeAt - s.now) sched))
+        (.req false sched'))).resp = .ok ∧
+      (obsOf (stepSt cfg.r.par cfg.w (stepSt cfg.r.par cfg.w s (.tick (s.wakeAt - s.now) sched))
+        (.req false sched'))).connects = (if 1 ≤ cfg.w.lo then 0 else 1) ∧
+      (stepSt cfg.r.par cfg.w (stepSt cfg.r.par cfg.w s (.tick (s.wakeAt - s.now) sched))
+        (.req false sched')).mode = some .up) := by
+  have hoc : o = true ∧ c = false := by
+    cases o with
+    | false => have := (hI.hidle rfl).1; rw [hd] at this; cases this
+    | true =>
+      cases c with
+      | false => exact ⟨rfl, rfl⟩
+      | true => rcases hI.hshut rfl with h | h <;> rw [hd] at h <;> cases h
+  obtain ⟨rfl, rfl⟩ := hoc
+  rcases hI.hlive rfl rfl with ⟨hm, _⟩ | ⟨_, _, _, hwk, hwm, hlt, _, hle, _⟩
+  · rw [hd] at hm; cases hm
+  have hmw : cfg.r.par.maxW = cfg.r.maxW := rfl
+  refine ⟨hlt, by omega, ?_⟩
+  intro hr sched sched'
+  have hstep : stepSt cfg.r.par cfg.w s (.tick (s.wakeAt - s.now) sched) =
+      settle cfg.r.par cfg.w s (drain cfg.w (opWake (canon cfg.w .down true)) sched) 1 (s.wakeAt - s.now) := by
+    have : s.wakeAt ≤ s.now + (s.wakeAt - s.now) := by omega
+    simp [stepSt, hd, hr, this]
+  have hT := T_wake cfg.w hw true sched
+  obtain ⟨g1, _, g3, g4, _, _, _, _⟩ := settle_spec cfg.r.par cfg.w s _ 1 (s.wakeAt - s.now) _ hT
+  obtain ⟨l1, l2, l3⟩ := settle_last cfg.r.par cfg.w s (drain cfg.w (opWake (canon cfg.w .down true)) sched) 1
+    (s.wakeAt - s.now)
+  rw [← hstep] at g1 g3 g4 l1 l2 l3
+  generalize stepSt cfg.r.par cfg.w s (.tick (s.wakeAt - s.now) sched) = s1 at *
+  have hup : classify cfg.w s1.last = some .up := by rw [l1, ← l2, g1]; rfl
+  obtain ⟨u1, u2, u3⟩ := classify_up cfg.w _ hup
+  have g1' : s1.mode = some .up := by rw [g1]; rfl
+  have hstep2 : stepSt cfg.r.par cfg.w s1 (.req false sched') =
+      settle cfg.r.par cfg.w s1 (drain cfg.w (opReq (canon cfg.w .up true) false) sched') 0 0 := by
+    simp [stepSt, g1', g3, hr]
+  have hT2 := T_req_up cfg.w hw true false sched'
+  obtain ⟨k1, _, _, k4, k5, _, _, _⟩ := settle_spec cfg.r.par cfg.w s1 _ 0 0 _ hT2
+  rw [← hstep2] at k1 k4 k5
+  refine ⟨g1', by rw [g4], by simp [obsOf, u1], by simp [obsOf, u2, l3], by simp [obsOf, u1, u2, u3],
+    by rw [k5]; simp [reqFails], by rw [k4]; simp [keep], by rw [k1]; simp [reqFails]⟩
 
 theorem inv_init (p : Par) : Inv p {} {} false false :=
   ⟨rfl, fun _ => rfl, rfl, fun _ => ⟨rfl, rfl, rfl, rfl⟩, (fun h => by cases h), (fun h => by cases h)⟩
@@ -450,25 +568,48 @@ end Scales.Pool
 
 namespace Scales.Chain
 
-theorem run_quiescent_mem (n : Nat) (c : C) (fs : List C) (h : explore n c = some fs) (picks : List Nat)
-    (hq : (run c picks).tasks.length = 0) : run c picks ∈ fs := by
-  have := (explore_sound n c fs h (picks ++ List.replicate n 0) (by simp)).1
-  rwa [← run_append, run_quiet _ hq] at this
+theorem run_quiescent_mem (w : WM) (n : Nat) (c : C) (fs : List C) (h : explore (clampWM w) n c = some fs)
+    (picks : List Nat) (hq : (run w c picks).tasks.length = 0) : run w c picks ∈ fs := by
+  have := (explore_sound w n c fs h (picks ++ List.replicate n 0) (by simp)).1
+  rwa [← run_append, run_quiet _ _ hq] at this
 
-theorem all_learned (c0 : C) (h : (explore fuel c0).map (fun l => l.all (fun c => decide (learned c))) = some true)
+/-- if all final states explored for a list of watermark pairs holding the clamped pair of `w` are
+    `learned`, then under `w` every schedule of at least `fuel` steps has run everything, and every
+    schedule that has run everything ends `learned` -/
+theorem all_learned_of (L : List WM) (w : WM) (hmem : clampWM w ∈ L) (mk : WM → C) (hmk : mk (clampWM w) = mk w)
+    (h : L.all (fun v => decide ((explore v fuel (mk v)).map
+          (fun l => l.all (fun c => decide (learned c))) = some true)) = true)
     (picks : List Nat) :
-    (fuel ≤ picks.length → (run c0 picks).tasks = []) ∧
-    ((run c0 picks).tasks = [] → learned (run c0 picks)) := by
-  cases he : explore fuel c0 with
-  | none => simp [he] at h
+    (fuel ≤ picks.length → (run w (mk w) picks).tasks = []) ∧
+    ((run w (mk w) picks).tasks = [] → learned (run w (mk w) picks)) := by
+  have hv := List.all_eq_true.mp h _ hmem
+  simp only [decide_eq_true_eq] at hv
+  cases he : explore (clampWM w) fuel (mk (clampWM w)) with
+  | none => simp [he] at hv
   | some fs =>
-    simp only [he, Option.map_some, Option.some.injEq] at h
+    simp only [he, Option.map_some, Option.some.injEq] at hv
+    rw [hmk] at he
     constructor
     · intro hl
-      exact List.eq_nil_of_length_eq_zero (explore_sound fuel c0 fs he picks hl).2
+      exact List.eq_nil_of_length_eq_zero (explore_sound w fuel (mk w) fs he picks hl).2.1
     · intro hq
-      have hm := run_quiescent_mem fuel c0 fs he picks (by rw [hq]; rfl)
-      simpa using List.all_eq_true.mp h _ hm
+      have hm := run_quiescent_mem w fuel (mk w) fs he picks (by rw [hq]; rfl)
+      simpa using List.all_eq_true.mp hv _ hm
 
+/-- … for the nine clamped pairs: every `w` with `hi ≥ 1` -/
+theorem all_learned (w : WM) (hw : 1 ≤ w.hi) (mk : WM → C) (hmk : mk (clampWM w) = mk w)
+    (h : Pool.allWM.all (fun v => decide ((explore v fuel (mk v)).map
+          (fun l => l.all (fun c => decide (learned c))) = some true)) = true)
+    (picks : List Nat) :
+    (fuel ≤ picks.length → (run w (mk w) picks).tasks = []) ∧
+    ((run w (mk w) picks).tasks = [] → learned (run w (mk w) picks)) :=
+  all_learned_of Pool.allWM w (Pool.clamp_mem w hw) mk hmk h picks
+
+/-- the clamped pairs of a pool that keeps nothing -/
+theorem clamp_mem_lo0 (w : WM) (hw : 1 ≤ w.hi) (hlo : w.lo = 0) : clampWM w ∈ [(⟨0, 1⟩ : WM), ⟨0, 2⟩, ⟨0, 3⟩] := by
+  have h2 : min w.hi 3 = 1 ∨ min w.hi 3 = 2 ∨ min w.hi 3 = 3 := by omega
+  unfold clampWM
+  rw [hlo]
+  rcases h2 with h2 | h2 | h2 <;> rw [h2] <;> simp
 
 end Scales.Chain
